@@ -55,7 +55,9 @@ class IsPrivate(Contract):
     def ensures(self, E, old, st, a, result):
         n = a["attr_name"].e if isinstance(a["attr_name"], VStr) else unbox_str(a["attr_name"].e)     # (a name taken from an opaque object: its text)
         if E.cur_contract is not self:
-            return [("private-spec", z3.Implies(private_spec(n), result.e)), ("only-underscore-names-are-private", z3.Implies(result.e, z3.PrefixOf(z3.StringVal("_"), n)))]
+            # (call-site view: besides the two verified implications, the answer is a pure function of the name - the body reads nothing but its argument and a constant set)
+            return [("private-spec", z3.Implies(private_spec(n), result.e)), ("only-underscore-names-are-private", z3.Implies(result.e, z3.PrefixOf(z3.StringVal("_"), n))),
+                    ("a-function-of-the-name", result.e == z3.Function("is_private_attribute_of", StrS, BoolS)(n))]
         return [("every leading-underscore name that is not of dunder form, and every reserved dunder name, is private", z3.Implies(private_spec(n), result.e)),
                 ("nothing without a leading underscore is private", z3.Implies(result.e, z3.PrefixOf(z3.StringVal("_"), n)))]
 
